@@ -20,6 +20,12 @@ import (
 type c20Reload struct {
 	AfterLine int `json:"after_line"` // issue the reload once this many lines have been handed to the runtime
 	DelayUs   int `json:"delay_us"`   // then wait this long first
+	// Kind: "" a new version that loads; "broken" a text that does not compile;
+	// "same" the running version's own bytes; "kind" a text in which gauge
+	// `last` is declared a timer (same source position): the attempt may be
+	// refused or accepted, and either way the lines go on being processed by
+	// exactly one version
+	Kind string `json:"kind,omitempty"`
 }
 
 type c20Case struct {
@@ -32,13 +38,24 @@ type c20Case struct {
 	// that path) are sent before the listed ids
 	ElseStop   bool         `json:"else_stop,omitempty"`
 	JunkBefore map[int]bool `json:"junk_before,omitempty"`
+	// SlowScans: the extra patterns have no literal prefix, so each one walks
+	// the whole of a heavy line (a line can take seconds)
+	SlowScans bool `json:"slow_scans,omitempty"`
 }
 
 func c20Source(ver, scans int, elseStop bool) string {
+	return c20SourceX(ver, scans, elseStop, false, "gauge")
+}
+
+func c20SourceX(ver, scans int, elseStop, slow bool, lastKind string) string {
 	var sb strings.Builder
-	sb.WriteString("counter seen by ver, id\ngauge last\ngauge prev\ncounter inversions\n")
+	sb.WriteString("counter seen by ver, id\n" + lastKind + " last\ngauge prev\ncounter inversions\n")
 	for i := 0; i < scans; i++ {
-		fmt.Fprintf(&sb, "/qq%dzz$/ {\n  inversions += 1000\n}\n", i)
+		if slow {
+			fmt.Fprintf(&sb, "/[pq]+[qr]%d+zz$/ {\n  inversions += 1000\n}\n", i)
+		} else {
+			fmt.Fprintf(&sb, "/qq%dzz$/ {\n  inversions += 1000\n}\n", i)
+		}
 	}
 	fmt.Fprintf(&sb, "/^(?P<id>\\d+)( [a-z ]*)?$/ {\n  seen[\"v%d\"][$id]++\n  $id < prev {\n    inversions++\n  }\n  prev = $id\n  last = $id\n}", ver)
 	if elseStop {
@@ -50,8 +67,9 @@ func c20Source(ver, scans int, elseStop bool) string {
 }
 
 type c20Info struct {
-	overlapped int // reloads issued while the running version had not finished the lines it was given
-	reloads    int
+	overlapped   int // reloads issued while the running version had not finished the lines it was given
+	reloads      int
+	kindAccepted int
 }
 
 func runC20(c c20Case) (*vstat.Failure, c20Info) {
@@ -65,7 +83,8 @@ func runC20(c c20Case) (*vstat.Failure, c20Info) {
 			panic(err)
 		}
 		defer e.close()
-		if err := e.r.CompileAndRun(name, strings.NewReader(c20Source(1, c.Scans, c.ElseStop))); err != nil {
+		running := c20SourceX(1, c.Scans, c.ElseStop, c.SlowScans, "gauge")
+		if err := e.r.CompileAndRun(name, strings.NewReader(running)); err != nil {
 			return vstat.Failf("load-error", "%v", err)
 		}
 		base := processed(name)
@@ -111,8 +130,31 @@ func runC20(c c20Case) (*vstat.Failure, c20Info) {
 			}
 			ver++
 			info.reloads++
-			if err := e.r.CompileAndRun(name, strings.NewReader(c20Source(ver, c.Scans, c.ElseStop))); err != nil {
-				return vstat.Failf("reload-error", "%v", err)
+			switch rl.Kind {
+			case "broken":
+				if err := e.r.CompileAndRun(name, strings.NewReader(c20SourceX(ver, c.Scans, c.ElseStop, c.SlowScans, "gauge")+"undeclared_metric++\n")); err == nil {
+					return vstat.Failf("harness", "a text that uses an undeclared metric was loaded")
+				}
+			case "same":
+				if err := e.r.CompileAndRun(name, strings.NewReader(running)); err != nil {
+					return vstat.Failf("reload-error", "reloading the running version's own text: %v", err)
+				}
+			case "kind":
+				text := c20SourceX(ver, c.Scans, c.ElseStop, c.SlowScans, "timer")
+				if err := e.r.CompileAndRun(name, strings.NewReader(text)); err == nil {
+					running = text
+					info.kindAccepted++
+				}
+			default:
+				text := c20SourceX(ver, c.Scans, c.ElseStop, c.SlowScans, "gauge")
+				if err := e.r.CompileAndRun(name, strings.NewReader(text)); err != nil {
+					if info.kindAccepted > 0 {
+						// `last` is a timer now: the gauge text may be refused in turn
+						continue
+					}
+					return vstat.Failf("reload-error", "%v", err)
+				}
+				running = text
 			}
 		}
 		select {
@@ -189,7 +231,7 @@ func c20RunRaw(raw json.RawMessage) *vstat.Failure {
 }
 
 func TestC20(t *testing.T) {
-	st := vstat.New("C20", "one program name, versions v1,v2,... with identical declarations (counter seen by ver,id; gauges last, prev; counter inversions), a stream of lines with increasing ids fed by one goroutine while another reloads the program at drawn points (after line k, plus 0-3000 us); drawn 'heavy' lines (64 KiB-4 MiB, several full-line regex scans before the writes) keep the old version busy while the swap happens. Oracle on the final store after shutdown: every id counted exactly once by exactly one version, no inversion, last = last id. non-trivial = a reload issued while the running version had measurably not finished the lines handed to the runtime; distinct by case")
+	st := vstat.New("C20", "one program name, versions v1,v2,... with identical declarations (counter seen by ver,id; gauges last, prev; counter inversions), a stream of lines with increasing ids fed by one goroutine while another reloads the program at drawn points (after line k, plus 0-3000 us); drawn 'heavy' lines (64 KiB-4 MiB, several full-line regex scans before the writes) keep the old version busy while the swap happens (a few cases make such a line take seconds); some reload attempts do not install a new version (text that does not compile, the running version's own bytes, a text that changes the kind of a metric in place). Oracle on the final store after shutdown: every id counted exactly once by exactly one version, no inversion, last = last id. non-trivial = a reload issued while the running version had measurably not finished the lines handed to the runtime; distinct by case")
 	st.Assumptions = []string{"timing decides only which interleaving is sampled and whether a case counts as non-trivial, never the verdict: the oracle is schedule-independent", "busy-ness at the swap is measured from the exported line-processing histogram"}
 	st.Run(t, c20RunRaw, func() {
 		st.Check(t, func(rt *rapid.T) {
@@ -205,16 +247,41 @@ func TestC20(t *testing.T) {
 				if at > c.N {
 					at = c.N
 				}
-				rl := c20Reload{AfterLine: at, DelayUs: rapid.SampledFrom([]int{0, 0, 50, 300, 1000, 3000}).Draw(rt, "delay")}
+				rl := c20Reload{AfterLine: at, DelayUs: rapid.SampledFrom([]int{0, 0, 50, 300, 1000, 3000}).Draw(rt, "delay"),
+					Kind: rapid.SampledFrom([]string{"", "", "", "", "broken", "same", "kind"}).Draw(rt, "rkind")}
+				if rl.Kind != "" {
+					st.Class("reload-attempt:" + rl.Kind)
+				}
 				c.Reloads = append(c.Reloads, rl)
 				// usually make the line just before the reload a heavy one
 				if rapid.IntRange(0, 3).Draw(rt, "heavy") > 0 {
 					c.HeavyKB[at] = rapid.SampledFrom([]int{64, 256, 1024, 2048, 4096}).Draw(rt, "kb")
+					if rapid.Bool().Draw(rt, "holdnext") {
+						// the next line comes late: the dispatcher is idle when the reload starts
+						c.PauseUs[at+1] = rapid.SampledFrom([]int{5000, 20000, 50000}).Draw(rt, "hold")
+					}
 				}
 			}
 			np := rapid.IntRange(0, 3).Draw(rt, "npauses")
 			for i := 0; i < np; i++ {
 				c.PauseUs[rapid.IntRange(1, c.N).Draw(rt, "pauseat")] = rapid.SampledFrom([]int{10, 200, 2000}).Draw(rt, "pause")
+			}
+			if len(c.HeavyKB) > 0 && rapid.IntRange(0, vstat.Scale(24, 8)).Draw(rt, "slow") == 0 {
+				// one line that takes seconds: no bound on how long the old version
+				// may need for the line it is executing
+				c.SlowScans = true
+				c.Scans = rapid.IntRange(12, 20).Draw(rt, "slowscans")
+				first := 0
+				for k := range c.HeavyKB {
+					if first == 0 || k < first {
+						first = k
+					}
+				}
+				c.HeavyKB = map[int]int{first: 8192}
+				// the feeder holds the next line back, so that the dispatcher is idle
+				// and the reload gets hold of the program while the slow line runs
+				c.PauseUs[first+1] = 400000
+				st.Class("line-taking-seconds")
 			}
 			if rapid.Bool().Draw(rt, "elsestop") {
 				c.ElseStop = true
